@@ -393,6 +393,7 @@ func c06History(c *Ctx, kind string) {
 		}
 	}
 	nums := []int{1, 2, 3, 5, 9, 10000}
+	issued := map[string]bool{}
 	var trace []string
 	completes := 0
 	n := 4 + c.Rng.Intn(25)
@@ -407,6 +408,13 @@ func c06History(c *Ctx, kind string) {
 			l, o, id := r.MpInit(bucket, k, md)
 			step(l, o, "initiate")
 			if id != "" {
+				c.R.Evaluations++
+				if issued[id] {
+					c.mismatch(Mismatch{Kind: "spec", Backend: kind, Case: append([]string{}, r.Lines...), Impl: "initiate returned upload id " + id + " which an earlier upload of this history had",
+						Spec: "a completed or aborted upload id stops existing: ids are never issued twice", Finger: "c06:upload-id-reused"})
+					dead = true
+				}
+				issued[id] = true
 				ups = append(ups, &mpUpload{bucket: bucket, key: k, id: id, parts: map[int][]byte{}, etags: map[int]string{}, stale: map[int]string{}})
 			}
 			trace = append(trace, "init "+k)
@@ -560,6 +568,15 @@ func c14History(c *Ctx) {
 	l, o := r.MkBucket(bucket)
 	r.judgeProj(l, o, "setup", ident, nil)
 	keys := []string{"a", "d/x", "d/y", "e/z", "f"}
+	combos := [][3]string{{"", "", "0"}, {"d", "", "1"}, {"", "/", "0"}, {"d/", "/", "1"}}
+	leading := c.Rng.Intn(3) == 0
+	if leading {
+		// keys and prefixes that begin with the delimiter (Prefix.Match trims leading delimiters),
+		// keys that sort before the prefix, a prefix beyond every key
+		keys = []string{"+p_q", "_t_x", "t_y", "t_z_w", "a"}
+		combos = [][3]string{{"", "", "0"}, {"t_", "_", "1"}, {"_t", "_", "1"}, {"t", "", "1"}, {"zz", "", "1"}, {"zz", "_", "1"}, {"", "_", "0"}}
+	}
+	issued := map[string]bool{}
 	var ups []*mpUpload
 	dead := false
 	step := func(line, obs, finger string) {
@@ -580,6 +597,13 @@ func c14History(c *Ctx) {
 			l, o, id := r.MpInit(bucket, k, nil)
 			step(l, o, "initiate")
 			if id != "" {
+				c.R.Evaluations++
+				if issued[id] {
+					c.mismatch(Mismatch{Kind: "spec", Backend: "mem", Case: append([]string{}, r.Lines...), Impl: "initiate returned upload id " + id + " which an earlier upload of this history had",
+						Spec: "a completed or aborted upload id stops existing: ids are never issued twice", Finger: "c14:upload-id-reused"})
+					dead = true
+				}
+				issued[id] = true
 				ups = append(ups, &mpUpload{bucket: bucket, key: k, id: id, parts: map[int][]byte{}, etags: map[int]string{}})
 			}
 		case x < 8:
@@ -619,7 +643,7 @@ func c14History(c *Ctx) {
 		return
 	}
 	// ---- ListMultipartUploads walks
-	for _, pd := range [][3]string{{"", "", "0"}, {"d", "", "1"}, {"", "/", "0"}, {"d/", "/", "1"}} {
+	for _, pd := range combos {
 		hasP := pd[2] == "1"
 		for lim := 1; lim <= len(ups)+1 && !dead; lim++ {
 			km, im := "", ""
@@ -667,7 +691,7 @@ func c14History(c *Ctx) {
 					Note: fmt.Sprintf("prefix=%q delimiter=%q max-uploads=%d", pd[0], pd[1], lim)})
 			}
 			// with a delimiter every grouped prefix must be reported (once) somewhere in the walk
-			if pd[1] != "" {
+			if pd[1] != "" && !leading {
 				want := map[string]bool{}
 				for _, u := range ups {
 					if strings.HasPrefix(u.key, pd[0]) {
